@@ -16,7 +16,7 @@ use std::sync::{Arc, Mutex};
 pub const GROUPS: &[&str] = &[
     "usart_dec", "usart_enc", "usart_rt", "can_dec", "can_enc", "can_rt", "to_frames", "frag_rt", "builder", "ev_enc", "ev_rt", "ev_dec",
     "ev_cross", "ev_xenc", "rx_usart", "rx_serial", "rx_can", "rxh_usart", "rxh_serial", "rxh_can", "tx_usart", "tx_can", "tx_serial", "loop_usart",
-    "loop_serial", "loop_can", "e2e_usart", "e2e_serial", "e2e_can", "proto", "usart_dec_enum", "can_dec_enum", "builder_enum", "psend_usart", "psend_can", "psend_serial", "frt_can", "frt_usart", "frag_rt_enum", "to_frames_enum",
+    "loop_serial", "loop_can", "e2e_usart", "e2e_serial", "e2e_can", "proto", "usart_dec_enum", "can_dec_enum", "builder_enum", "psend_usart", "psend_can", "psend_serial", "frt_can", "frt_usart", "frag_rt_enum", "to_frames_enum", "sched_usart_enum", "sched_serial_enum", "sched_can_enum", "tx_usart_enum", "tx_can_enum", "tx_serial_enum",
 ];
 
 fn guard<T>(f: impl FnOnce() -> T) -> Option<T> {
@@ -1792,6 +1792,121 @@ impl CloneFrame for Frame {
     }
 }
 
+/// packet sets for the exhaustive schedule / fault enumerations: (single), (two-frame), (single, three-frame, single)
+fn enum_packets(k: u64) -> Vec<Packet> {
+    let pk = |e: bool, a: u16, n: usize, seed: u64| Packet { is_error: e, device_address: a, data: gen_bytes(seed, n) };
+    match k % 3 {
+        0 => vec![pk(false, 0x0102, 3, 1)],
+        1 => vec![pk(true, 0x00ff, 12, 2)],
+        _ => vec![pk(false, 0x0007, 8, 3), pk(false, 0x0700, 16, 4), pk(true, 0xffff, 0, 5)],
+    }
+}
+
+fn packets_text(ps: &[Packet]) -> String {
+    ps.iter().map(text::packet).collect::<Vec<_>>().join("+")
+}
+
+/// `sched <link> <packets> <script>`: every placement of one or two "no data yet" answers (USART: before any byte;
+/// serial port: before any link frame, plus one interrupt before any byte; CAN: before any frame) in the wire of the
+/// packet set, and the placement before every position at once
+fn enum_sched(link: &str, i: u64) -> Option<String> {
+    let ps = enum_packets(i);
+    let i = i / 3;
+    if link == "can" {
+        let wire: Vec<CanItem> = ps.iter().flat_map(|p| refenc::can_wire(p)).map(CanItem::Frame).collect();
+        let n = wire.len() as u64 + 1;
+        let (a, b) = (i % n, i / n);
+        if b > n {
+            return None;
+        }
+        let mut items = vec![];
+        for (k, it) in wire.iter().enumerate() {
+            if b == n || k as u64 == a || (b < n && k as u64 == b) {
+                items.push(CanItem::WouldBlock);
+            }
+            items.push(it.clone());
+        }
+        if a == n - 1 {
+            items.push(CanItem::WouldBlock);
+        }
+        return Some(format!("sched can {} {}", packets_text(&ps), can_script(&items)));
+    }
+    let wire: Vec<u8> = ps.iter().flat_map(|p| refenc::wire(p)).flatten().collect();
+    let starts = start_mask(&wire);
+    let n = wire.len() as u64 + 1;
+    let (a, b) = (i % n, i / n);
+    if b > n {
+        return None;
+    }
+    let mut items = vec![];
+    for (k, byte) in wire.iter().enumerate() {
+        let here = b == n || k as u64 == a || k as u64 == b;
+        if here {
+            if link == "usart" || starts[k] {
+                items.push(ByteItem::WouldBlock);
+            } else {
+                items.push(ByteItem::Interrupted);
+            }
+        }
+        items.push(ByteItem::Byte(*byte));
+    }
+    if a == n - 1 {
+        items.push(ByteItem::WouldBlock);
+    }
+    Some(if link == "serial" { format!("sched serial {} {} {}", packets_text(&ps), byte_script(&items), 1 + i % 4) } else { format!("sched usart {} {}", packets_text(&ps), byte_script(&items)) })
+}
+
+fn exec_sched(t: &[&str]) -> Option<String> {
+    let link = *t.first()?;
+    match link {
+        "can" => Some(run_rx_can(parse_can_script(t.get(2)?)?, false)),
+        "usart" => Some(run_rx_bytes(link, &parse_byte_script(t.get(2)?)?, 1, false)),
+        "serial" => Some(run_rx_bytes(link, &parse_byte_script(t.get(2)?)?, t.get(3)?.parse().ok()?, false)),
+        _ => None,
+    }
+}
+
+/// `tx` cases enumerating every fault position for a small packet set: USART a burst of 1..3 would-blocks before byte k;
+/// CAN a displaced report or a would-block at transmit k; serial port an I/O error, a zero write, an interrupt or a
+/// short write of 1..3 bytes at write call k (the other writes accept 1, 2 or all bytes)
+fn enum_tx(link: &str, i: u64) -> Option<String> {
+    let ps = enum_packets(i);
+    let i = i / 3;
+    let pt = packets_text(&ps);
+    match link {
+        "usart" => {
+            let n: u64 = ps.iter().flat_map(|p| refenc::wire(p)).map(|f| f.len() as u64).sum();
+            let (k, burst) = (i % n, 1 + i / n);
+            if burst > 3 {
+                return None;
+            }
+            let resp: String = (0..n).flat_map(|j| if j == k { vec!['.'; burst as usize].into_iter().chain(std::iter::once('a')).collect::<Vec<_>>() } else { vec!['a'] }).collect();
+            Some(format!("tx usart {} {}", pt, resp))
+        }
+        "can" => {
+            let n: u64 = ps.iter().map(|p| refenc::can_wire(p).len() as u64).sum();
+            let (k, kind) = (i % n, i / n);
+            if kind > 2 {
+                return None;
+            }
+            let resp: String = (0..n).flat_map(|j| if j == k { match kind { 0 => vec!['d'], 1 => vec!['.', 's'], _ => vec!['.', '.', 'd'] } } else { vec!['s'] }).collect();
+            Some(format!("tx can {} {}", pt, resp))
+        }
+        _ => {
+            // at most 3 write calls per frame, more with short writes: enumerate the first 40 write calls
+            let (k, rest) = (i % 40, i / 40);
+            let (fault, style) = (rest % 6, rest / 6);
+            if style > 2 {
+                return None;
+            }
+            let normal = ["w1", "w2", "w99"][style as usize];
+            let f = ["!", "w0", "~", "w1", "w2", "w3"][fault as usize];
+            let rs: Vec<&str> = (0..60).map(|j| if j == k { f } else { normal }).collect();
+            Some(format!("tx serial {} {} {}", pt, rs.join(","), if i % 7 == 0 { "o!o" } else { "ooo" }))
+        }
+    }
+}
+
 /* ---------------------------------------------------------------- dispatch ---- */
 
 pub struct Gen {
@@ -1866,6 +1981,12 @@ impl Gen {
             "proto" => format!("proto {}", crate::proto::gen(r)),
             "frag_rt_enum" => format!("frag_rt {} {}", ["direct", "can", "usart"][(i % 3) as usize], text::packet_gen(i % 2 == 1, 0x1234u16.wrapping_mul(i as u16 | 1), i / 3, (i / 3) as usize)),
             "to_frames_enum" => format!("to_frames {}", text::packet_gen(i % 2 == 1, 0x4321u16.wrapping_add(i as u16), i, i as usize)),
+            "sched_usart_enum" => enum_sched("usart", i).or_else(|| enum_sched("usart", 0)).unwrap(),
+            "sched_serial_enum" => enum_sched("serial", i).or_else(|| enum_sched("serial", 0)).unwrap(),
+            "sched_can_enum" => enum_sched("can", i).or_else(|| enum_sched("can", 0)).unwrap(),
+            "tx_usart_enum" => enum_tx("usart", i).unwrap_or_else(|| "tx usart D:0001:- -".into()),
+            "tx_can_enum" => enum_tx("can", i).unwrap_or_else(|| "tx can D:0001:- -".into()),
+            "tx_serial_enum" => enum_tx("serial", i).unwrap_or_else(|| "tx serial D:0001:- - o".into()),
             "usart_dec_enum" => format!("usart_dec {}", text::hex(&enum_bytes(i))),
             "can_dec_enum" => format!("can_dec {}", text::can(&enum_can(i))),
             "builder_enum" => format!("builder {}", enum_builder(i)),
@@ -1898,6 +2019,7 @@ pub fn exec(input: &str) -> Option<String> {
         "rxh" => exec_rx(rest, true),
         "tx" => exec_tx(rest),
         "loop" => exec_loop(rest),
+        "sched" => exec_sched(rest),
         "psend" => exec_psend(rest),
         "e2e" => exec_e2e(rest),
         "proto" => crate::proto::exec(rest),
